@@ -1408,9 +1408,12 @@ class LangServer:
                         if inc_ast is not None and inc_ast.inc_scope is not None:
                             inc_ast.none_scope = inc_ast.inc_scope
                 # Other files must not stay linked to the removed objects
-                self.link_version = (self.link_version + 1) % 1000
+                # (all include statements first: the links of one file may go
+                # through entities another file loses with the removed include)
                 for _, tmp_file in self.workspace.items():
                     tmp_file.ast.resolve_includes(self.workspace, path=filepath)
+                self.link_version = (self.link_version + 1) % 1000
+                for _, tmp_file in self.workspace.items():
                     tmp_file.ast.resolve_links(self.obj_tree, self.link_version)
             return
         did_change, err_str = self.update_workspace_file(
